@@ -7,6 +7,7 @@ Import ListNotations.
 Section LegacyProofs.
 Context {T : Type}.
 Variable cast : dt -> dt -> T -> T.
+Variable pv : bool.
 Variable F1 : dt -> dt.
 Variable f1 : dt -> T -> T.
 Notation ptree := (@ptree T).
@@ -86,6 +87,264 @@ Qed.
 Lemma legacy1_agrees_with_numpy (ts : list ptree) :
   dtype_preserved F1 (PNode ts) -> legacy1 (PNode ts) = numpy1 (PNode ts).
 Proof. intros Hp. rewrite legacy1_closed_form. apply spec_is_numpy. exact Hp. Qed.
+
+(* ---------- binary legacy ufuncs: pairing vs recursive broadcasting ---------- *)
+Section Binary.
+Variable F2 : dt -> dt.
+Variable f2 : dt -> T -> T -> T.
+Notation legacy2 := (legacy2 cast pv F2 f2).
+Notation espec := (legacy2_elem_spec cast F2 f2).
+
+(* named versions of the nested list recursions *)
+Fixpoint sigs_eqb (ts us : list ptree) : bool :=
+  match ts, us with
+  | [], [] => true
+  | a :: ts', b :: us' => sig_eqb a b && sigs_eqb ts' us'
+  | _, _ => false
+  end.
+Lemma sig_eqb_node ts us : sig_eqb (PNode ts) (PNode us) = sigs_eqb ts us.
+Proof. reflexivity. Qed.
+Definition inners (l : list ptree) (u : ptree) : Prop :=
+  (fix all (l : list ptree) : Prop :=
+     match l with [] => True | a :: l' => inner a u /\ all l' end) l.
+Lemma inners_cons a l u : inners (a :: l) u = (inner a u /\ inners l u).
+Proof. reflexivity. Qed.
+Lemma inner_unfold t u :
+  inner t u = if sig_eqb t u then True else match t with PLeaf _ _ => False | PNode ts => inners ts u end.
+Proof. destruct t; reflexivity. Qed.
+Definition l2_pair (w : bool) (ts us : list ptree) : res (list ptree) :=
+  (fix go (ts us : list ptree) : res (list ptree) :=
+     match ts, us with
+     | x :: ts', u :: us' =>
+         match legacy2 w x (A2Tree u) with
+         | Err e => Err e
+         | Ok r => match go ts' us' with Ok l => Ok (r :: l) | Err e => Err e end
+         end
+     | _, _ => Ok []
+     end) ts us.
+Lemma l2_pair_cons w x ts u us :
+  l2_pair w (x :: ts) (u :: us) = match legacy2 w x (A2Tree u) with
+                                  | Err e => Err e
+                                  | Ok r => match l2_pair w ts us with Ok l => Ok (r :: l) | Err e => Err e end
+                                  end.
+Proof. reflexivity. Qed.
+Definition l2_map (w : bool) (ts : list ptree) (a : arg2) : res (list ptree) :=
+  (fix go (ts : list ptree) : res (list ptree) :=
+     match ts with
+     | [] => Ok []
+     | x :: ts' =>
+         match legacy2 w x a with
+         | Err e => Err e
+         | Ok r => match go ts' with Ok l => Ok (r :: l) | Err e => Err e end
+         end
+     end) ts.
+Lemma l2_map_cons w x ts a :
+  l2_map w (x :: ts) a = match legacy2 w x a with
+                         | Err e => Err e
+                         | Ok r => match l2_map w ts a with Ok l => Ok (r :: l) | Err e => Err e end
+                         end.
+Proof. reflexivity. Qed.
+Lemma legacy2_node w ts a :
+  legacy2 w (PNode ts) a =
+  match (if pair_decision (PNode ts) a
+         then match a with A2Tree (PNode us) => l2_pair w ts us | _ => Err EUnmodelled end
+         else l2_map w ts a) with
+  | Ok l => Ok (cast_like (PNode ts) (PNode l))
+  | Err e => Err e
+  end.
+Proof. reflexivity. Qed.
+
+Fixpoint espec_zip (ts us : list ptree) : list ptree :=
+  match ts, us with a :: ts', b :: us' => espec a b :: espec_zip ts' us' | _, _ => [] end.
+Lemma espec_node ts us : espec (PNode ts) (PNode us) = PNode (espec_zip ts us).
+Proof. reflexivity. Qed.
+
+(* the closed form for an operand from the space of t or one of its inner spaces *)
+Fixpoint bspec (t u : ptree) : ptree :=
+  if sig_eqb t u then espec t u
+  else match t with
+       | PLeaf _ _ => t
+       | PNode ts => PNode (map (fun x => bspec x u) ts)
+       end.
+
+Lemma zip_cast_length_nil (ts : list ptree) : zip_cast ts [] = [].
+Proof. destruct ts; reflexivity. Qed.
+
+(* conversion of a closed-form result changes nothing *)
+Lemma cast_like_espec (t : ptree) : forall u, sig_eqb t u = true -> cast_like t (espec t u) = espec t u.
+Proof.
+  induction t as [d x | ts IH] using ptree_rect'; intros [e y | us] Hs; try discriminate Hs.
+  - cbn. f_equal. rewrite map_map. apply map_ext. intros v. apply conv_same.
+  - rewrite espec_node, cast_like_node. f_equal. rewrite sig_eqb_node in Hs.
+    revert us Hs. induction IH as [|a ts Ha _ IHl]; intros [|b us] Hs; cbn in *; try discriminate; auto.
+    apply andb_prop in Hs as [H1 H2]. rewrite Ha by exact H1. f_equal. apply IHl. exact H2.
+Qed.
+Lemma cast_like_bspec (t : ptree) : forall u, inner t u -> cast_like t (bspec t u) = bspec t u.
+Proof.
+  induction t as [d x | ts IH] using ptree_rect'; intros u Hi.
+  - cbn [bspec]. destruct (sig_eqb (PLeaf d x) u) eqn:Hs; [apply cast_like_espec; exact Hs|].
+    rewrite inner_unfold, Hs in Hi. destruct Hi.
+  - cbn [bspec]. destruct (sig_eqb (PNode ts) u) eqn:Hs; [apply cast_like_espec; exact Hs|].
+    rewrite inner_unfold, Hs in Hi. rewrite cast_like_node, zip_cast_map. f_equal. clear Hs.
+    induction IH as [|a ts Ha _ IHl]; [reflexivity|]. rewrite inners_cons in Hi. destruct Hi as [Hia Hil].
+    cbn [map]. rewrite Ha by exact Hia. f_equal. apply IHl. exact Hil.
+Qed.
+
+(* MAIN CLOSED FORM (out-of-place): every nesting depth, every number of parts,
+   x2 from the space of X or from any of its inner spaces *)
+Lemma legacy2_inner (t : ptree) : forall u, inner t u ->
+  exists r, legacy2 false t (A2Tree u) = Ok r
+            /\ cast_like t r = bspec t u
+            /\ (forall ts, t = PNode ts -> r = bspec t u).
+Proof.
+  induction t as [d x | ts IH] using ptree_rect'; intros u Hi.
+  - rewrite inner_unfold in Hi. destruct (sig_eqb (PLeaf d x) u) eqn:Hs; [|destruct Hi].
+    destruct u as [e y | us]; [|discriminate Hs]. cbn in Hs. apply andb_prop in Hs as [Hd Hl].
+    apply Nat.eqb_eq in Hl.
+    exists (PLeaf (F2 d) (map2 (f2 d) x y)). split; [|split].
+    + cbn [Legacy.legacy2]. unfold leaf2, opvec. cbn [andb].
+      replace (length y =? length x)%nat with true by (symmetry; apply Nat.eqb_eq; congruence). reflexivity.
+    + cbn [bspec sig_eqb]. rewrite Hd. replace (length x =? length y)%nat with true
+        by (symmetry; apply Nat.eqb_eq; exact Hl). cbn. reflexivity.
+    + intros ts E; discriminate E.
+  - assert (Hnode : exists l, (if pair_decision (PNode ts) (A2Tree u)
+                               then match u with PNode us => l2_pair false ts us | _ => Err EUnmodelled end
+                               else l2_map false ts (A2Tree u)) = Ok l
+                              /\ PNode (zip_cast ts l) = bspec (PNode ts) u).
+    { cbn [pair_decision bspec]. rewrite inner_unfold in Hi.
+      destruct (sig_eqb (PNode ts) u) eqn:Hs.
+      - destruct u as [e y | us]; [discriminate Hs|]. rewrite sig_eqb_node in Hs. rewrite espec_node.
+        clear Hi. revert us Hs. induction IH as [|a ts Ha _ IHl]; intros [|b us] Hs; cbn in Hs; try discriminate.
+        + exists []. split; reflexivity.
+        + apply andb_prop in Hs as [H1 H2].
+          assert (Hia : inner a b) by (rewrite inner_unfold, H1; exact I).
+          destruct (Ha b Hia) as (r & Hr & Hc & _).
+          destruct (IHl us H2) as (l & Hl & Hz).
+          exists (r :: l). rewrite l2_pair_cons, Hr, Hl. split; [reflexivity|].
+          cbn [zip_cast espec_zip]. inversion Hz as [Hz']. rewrite Hc.
+          unfold bspec at 1. destruct a; cbn [bspec] in *; rewrite H1; reflexivity.
+      - clear Hs. induction IH as [|a ts Ha _ IHl].
+        + exists []. split; reflexivity.
+        + rewrite inners_cons in Hi. destruct Hi as [Hia Hil]. destruct (Ha u Hia) as (r & Hr & Hc & _).
+          destruct (IHl Hil) as (l & Hl & Hz).
+          exists (r :: l). rewrite l2_map_cons, Hr, Hl. split; [reflexivity|].
+          cbn [zip_cast map]. inversion Hz as [Hz']. rewrite Hc. reflexivity. }
+    destruct Hnode as (l & Hl & Hz).
+    exists (cast_like (PNode ts) (PNode l)). rewrite legacy2_node, Hl, cast_like_node, Hz.
+    split; [reflexivity|]. split; [apply cast_like_bspec; exact Hi | intros; reflexivity].
+Qed.
+
+(* ---- the closed form IS NumPy broadcasting on the stacked arrays ---- *)
+Definition flats (l : list ptree) : list T :=
+  (fix go (l : list ptree) : list T := match l with [] => [] | a :: l' => flat a ++ go l' end) l.
+Lemma flat_node ts : flat (PNode ts) = flats ts.
+Proof. reflexivity. Qed.
+Lemma flats_cons a l : flats (a :: l) = flat a ++ flats l.
+Proof. reflexivity. Qed.
+Definition copies_l (l : list ptree) (u : ptree) : nat :=
+  (fix sum (l : list ptree) : nat := match l with [] => 0%nat | a :: l' => (copies a u + sum l')%nat end) l.
+Lemma copies_unfold t u :
+  copies t u = if sig_eqb t u then 1%nat
+               else match t with PLeaf _ _ => 0%nat | PNode ts => copies_l ts u end.
+Proof. destruct t; reflexivity. Qed.
+Lemma copies_l_cons a l u : copies_l (a :: l) u = (copies a u + copies_l l u)%nat.
+Proof. reflexivity. Qed.
+Definition all_dtypes (d : dt) (l : list ptree) : Prop :=
+  (fix all (l : list ptree) : Prop := match l with [] => True | a :: l' => all_dtype d a /\ all l' end) l.
+Lemma all_dtype_node d ts : all_dtype d (PNode ts) = all_dtypes d ts.
+Proof. reflexivity. Qed.
+Lemma all_dtypes_cons d a l : all_dtypes d (a :: l) = (all_dtype d a /\ all_dtypes d l).
+Proof. reflexivity. Qed.
+
+Lemma map2_length {A B C} (g : A -> B -> C) (x : list A) (y : list B) :
+  length x = length y -> length (map2 g x y) = length x.
+Proof. revert y; induction x as [|a x IH]; intros [|b y] Hl; cbn in *; try congruence. f_equal. apply IH. congruence. Qed.
+Lemma map2_app {A B C} (g : A -> B -> C) (a b : list A) (c e : list B) :
+  length a = length c -> map2 g (a ++ b) (c ++ e) = map2 g a c ++ map2 g b e.
+Proof.
+  revert c; induction a as [|x a IH]; intros [|y c] Hl; cbn in *; try congruence.
+  f_equal. apply IH. congruence.
+Qed.
+Lemma map_map2 {A B C D} (h : C -> D) (g : A -> B -> C) (x : list A) (y : list B) :
+  map h (map2 g x y) = map2 (fun a b => h (g a b)) x y.
+Proof. revert y; induction x as [|a x IH]; intros [|b y]; cbn; try reflexivity. f_equal. apply IH. Qed.
+Lemma tile_add k k' (l : list T) : tile (k + k') l = tile k l ++ tile k' l.
+Proof. induction k as [|k IH]; cbn; [reflexivity|]. rewrite IH, app_assoc. reflexivity. Qed.
+Lemma tile_length k (l : list T) : length (tile k l) = (k * length l)%nat.
+Proof. induction k as [|k IH]; cbn; [reflexivity|]. rewrite app_length, IH. reflexivity. Qed.
+
+Lemma sig_eqb_flat_length (t : ptree) : forall u, sig_eqb t u = true -> length (flat t) = length (flat u).
+Proof.
+  induction t as [d x | ts IH] using ptree_rect'; intros [e y | us] Hs; try discriminate Hs.
+  - cbn in Hs. apply andb_prop in Hs as [_ Hl]. apply Nat.eqb_eq in Hl. exact Hl.
+  - rewrite sig_eqb_node in Hs. rewrite !flat_node. revert us Hs.
+    induction IH as [|a ts Ha _ IHl]; intros [|b us] Hs; cbn in Hs; try discriminate; [reflexivity|].
+    apply andb_prop in Hs as [H1 H2]. rewrite !flats_cons, !app_length, (Ha b H1), (IHl us H2). reflexivity.
+Qed.
+
+Section Uniform.
+Variable d : dt.
+(* what one entry becomes: the ufunc, converted back into the space dtype *)
+Definition g2 (v w : T) : T := conv cast (F2 d) d (f2 d v w).
+
+Lemma espec_flat (t : ptree) : forall u, sig_eqb t u = true -> all_dtype d t ->
+  flat (espec t u) = map2 g2 (flat t) (flat u).
+Proof.
+  induction t as [e x | ts IH] using ptree_rect'; intros [e' y | us] Hs Hd; try discriminate Hs.
+  - cbn in Hd. subst e. cbn. apply map_map2.
+  - rewrite espec_node, !flat_node. rewrite sig_eqb_node in Hs. rewrite all_dtype_node in Hd.
+    revert us Hs. induction IH as [|a ts Ha _ IHl]; intros [|b us] Hs; cbn in Hs; try discriminate; [reflexivity|].
+    apply andb_prop in Hs as [H1 H2]. rewrite all_dtypes_cons in Hd. destruct Hd as [Hda Hdl].
+    cbn [espec_zip]. rewrite !flats_cons. rewrite map2_app by (apply sig_eqb_flat_length; exact H1).
+    rewrite (Ha b H1 Hda), (IHl Hdl us H2). reflexivity.
+Qed.
+
+Lemma inner_flat_length (t : ptree) : forall u, inner t u ->
+  length (flat t) = (copies t u * length (flat u))%nat.
+Proof.
+  induction t as [e x | ts IH] using ptree_rect'; intros u Hi; rewrite inner_unfold in Hi; rewrite copies_unfold.
+  - destruct (sig_eqb (PLeaf e x) u) eqn:Hs; [|destruct Hi].
+    rewrite (sig_eqb_flat_length _ _ Hs). lia.
+  - destruct (sig_eqb (PNode ts) u) eqn:Hs; [rewrite (sig_eqb_flat_length _ _ Hs); lia|].
+    rewrite flat_node. clear Hs. induction IH as [|a ts Ha _ IHl]; [reflexivity|].
+    rewrite inners_cons in Hi. destruct Hi as [Hia Hil].
+    rewrite flats_cons, app_length, copies_l_cons, (Ha u Hia), (IHl Hil). lia.
+Qed.
+
+(* NumPy broadcasting of the array of u (shape = a suffix of the shape of t)
+   against the array of t is tiling it along the leading axes *)
+Lemma bspec_flat (t : ptree) : forall u, inner t u -> all_dtype d t ->
+  flat (bspec t u) = map2 g2 (flat t) (tile (copies t u) (flat u)).
+Proof.
+  induction t as [e x | ts IH] using ptree_rect'; intros u Hi Hd;
+    rewrite inner_unfold in Hi; rewrite copies_unfold; cbn [bspec].
+  - destruct (sig_eqb (PLeaf e x) u) eqn:Hs; [|destruct Hi].
+    rewrite (espec_flat _ _ Hs Hd). cbn [tile]. rewrite app_nil_r. reflexivity.
+  - destruct (sig_eqb (PNode ts) u) eqn:Hs.
+    + rewrite (espec_flat _ _ Hs Hd). cbn [tile]. rewrite app_nil_r. reflexivity.
+    + rewrite !flat_node. rewrite all_dtype_node in Hd. clear Hs.
+      induction IH as [|a ts Ha _ IHl]; [reflexivity|].
+      rewrite inners_cons in Hi. destruct Hi as [Hia Hil].
+      rewrite all_dtypes_cons in Hd. destruct Hd as [Hda Hdl].
+      cbn [map]. rewrite !flats_cons, copies_l_cons, tile_add.
+      rewrite map2_app by (rewrite tile_length; apply inner_flat_length; exact Hia).
+      rewrite (Ha u Hia Hda), (IHl Hil Hdl). reflexivity.
+Qed.
+
+(* THEOREM: the legacy call X.ufuncs.f(x2) with x2 from the space of X or any of
+   its inner power/tensor spaces returns an element whose stacked array is the
+   ufunc applied to the array of X and the array of x2 broadcast (tiled along
+   the leading axes), converted into the dtype of the space *)
+Lemma legacy2_is_numpy_broadcasting (ts : list ptree) (u : ptree) :
+  inner (PNode ts) u -> all_dtype d (PNode ts) ->
+  exists r, legacy2 false (PNode ts) (A2Tree u) = Ok r
+            /\ flat r = map2 g2 (flat (PNode ts)) (tile (copies (PNode ts) u) (flat u)).
+Proof.
+  intros Hi Hd. destruct (legacy2_inner (PNode ts) u Hi) as (r & Hr & _ & Hn).
+  exists r. split; [exact Hr|]. rewrite (Hn ts eq_refl). apply bspec_flat; assumption.
+Qed.
+End Uniform.
+End Binary.
 
 (* ---------- __array_wrap__ of power-space elements ---------- *)
 (* a result with the shape of the element is wrapped into the same space: the
